@@ -31,8 +31,13 @@ import (
 type Case struct {
 	Kind string   `json:"kind"`
 	Src  string   `json:"src"`
-	Mode string   `json:"mode"` // file | e | missing
+	Mode string   `json:"mode"` // file | e | missing | directory | below-file
 	Args []string `json:"args"`
+	// Expect: for kind explicit-stdout the standard output is known by construction (the bundled
+	// os.Stdout value cannot be captured in-process: it was bound when the package table was built)
+	Expect string `json:"expect,omitempty"`
+	// Inc: contents of the file @DIR@/inc.ank the script may load
+	Inc string `json:"inc,omitempty"`
 }
 
 // the probe functions of the generated programs, written in anko itself so that their
@@ -63,8 +68,58 @@ func gen(t *rapid.T) Case {
 		}
 		c.Args = append(c.Args, a)
 	}
-	k := rapid.IntRange(0, 11).Draw(t, "kind")
+	k := rapid.IntRange(0, 14).Draw(t, "kind")
 	switch {
+	case k == 12:
+		// builtins that reach back into the script's own scope: defined(name), load(file)
+		c.Kind = "scope-builtins"
+		v := rapid.SampledFrom([]string{"dv", "x", "args", "nosuch", "println"}).Draw(t, "dname")
+		c.Src = "dv = 5\nx = \"s\"\nprintln(defined(\"" + v + "\"), defined(\"dv\"), defined(\"args\"), defined(\"nosuch\"))\nfunc f() {\n  var loc = 1\n  return [defined(\"loc\"), defined(\"dv\")]\n}\nprintln(f())\n"
+		switch rapid.IntRange(0, 3).Draw(t, "load") {
+		case 0:
+			c.Inc = "println(\"inc sees\", dv, len(args))\ninc_made = dv + 1\n"
+			c.Src += "load(\"@DIR@/inc.ank\")\nprintln(\"after load\", inc_made)\n"
+		case 1:
+			c.Inc = "println(\"inc\")\nthrow \"from inc\"\n"
+			c.Src += "load(\"@DIR@/inc.ank\")\nprintln(\"not reached\")\n"
+		case 2:
+			c.Src += "load(\"@DIR@/missing.ank\")\nprintln(\"not reached\")\n"
+		}
+	case k == 13:
+		// output written through the bundled os.Stdout value, interleaved with the core builtins
+		c.Kind = "explicit-stdout"
+		var src, exp strings.Builder
+		src.WriteString("os = import(\"os\")\nfmt = import(\"fmt\")\nio = import(\"io\")\n")
+		n := rapid.IntRange(1, 6).Draw(t, "nwrites")
+		for i := 0; i < n; i++ {
+			txt := rapid.SampledFrom([]string{"a", "line", "x y", "é", "42", ""}).Draw(t, "txt") + fmt.Sprint(i)
+			switch rapid.IntRange(0, 5).Draw(t, "how") {
+			case 0:
+				src.WriteString("println(\"" + txt + "\")\n")
+				exp.WriteString(txt + "\n")
+			case 1:
+				src.WriteString("print(\"" + txt + "\")\n")
+				exp.WriteString(txt)
+			case 2:
+				src.WriteString("os.Stdout.WriteString(\"" + txt + "\\n\")\n")
+				exp.WriteString(txt + "\n")
+			case 3:
+				src.WriteString("fmt.Fprintln(os.Stdout, \"" + txt + "\", " + fmt.Sprint(i) + ")\n")
+				exp.WriteString(txt + " " + fmt.Sprint(i) + "\n")
+			case 4:
+				src.WriteString("fmt.Fprintf(os.Stdout, \"%s|\", \"" + txt + "\")\n")
+				exp.WriteString(txt + "|")
+			default:
+				src.WriteString("io.WriteString(os.Stdout, \"" + txt + ";\")\n")
+				exp.WriteString(txt + ";")
+			}
+		}
+		c.Src, c.Expect = src.String(), exp.String()
+	case k == 14:
+		// a script path that exists in some form but cannot be read as a file
+		c.Kind = "unreadable-file"
+		c.Mode = rapid.SampledFrom([]string{"directory", "below-file"}).Draw(t, "unreadable")
+		c.Src = "println(\"must not run\")\n"
 	case k <= 5:
 		c.Kind = "model-program"
 		p, _ := prog.Generate(t, prog.Profile{Scopes: true, Control: true, Errors: true, IncDec: true, MaxDepth: 3, MaxStmts: 4})
@@ -218,22 +273,47 @@ func oracle(c Case, o *h.Obs) *h.Fail {
 	var argv []string
 	var want inproc
 	wantCode := 0
-	switch c.Mode {
-	case "missing":
-		argv = append([]string{filepath.Join(dir, "does-not-exist.ank")}, c.Args...)
-		wantCode = 2
-	case "file":
+	src := strings.ReplaceAll(c.Src, "@DIR@", dir)
+	if c.Inc != "" {
+		os.WriteFile(filepath.Join(dir, "inc.ank"), []byte(c.Inc), 0o644)
+	}
+	if c.Kind == "explicit-stdout" {
 		f := filepath.Join(dir, "s.ank")
-		os.WriteFile(f, []byte(c.Src), 0o644)
-		argv = append([]string{f}, c.Args...)
-		want = runInProcess(c.Src, c.Args)
-	default:
-		if c.Src == "" {
-			o.Excluded = "-e with an empty source starts the interactive mode"
-			return nil
+		os.WriteFile(f, []byte(src), 0o644)
+		if c.Mode == "e" {
+			argv = append([]string{"-e", src}, c.Args...)
+		} else {
+			argv = append([]string{f}, c.Args...)
 		}
-		argv = append([]string{"-e", c.Src}, c.Args...)
-		want = runInProcess(c.Src, c.Args)
+		want = inproc{out: c.Expect}
+	} else {
+		switch c.Mode {
+		case "directory":
+			d := filepath.Join(dir, "adir.ank")
+			os.Mkdir(d, 0o755)
+			argv = append([]string{d}, c.Args...)
+			wantCode = 2
+		case "below-file":
+			f := filepath.Join(dir, "s.ank")
+			os.WriteFile(f, []byte(src), 0o644)
+			argv = append([]string{filepath.Join(f, "x.ank")}, c.Args...)
+			wantCode = 2
+		case "missing":
+			argv = append([]string{filepath.Join(dir, "does-not-exist.ank")}, c.Args...)
+			wantCode = 2
+		case "file":
+			f := filepath.Join(dir, "s.ank")
+			os.WriteFile(f, []byte(src), 0o644)
+			argv = append([]string{f}, c.Args...)
+			want = runInProcess(src, c.Args)
+		default:
+			if c.Src == "" {
+				o.Excluded = "-e with an empty source starts the interactive mode"
+				return nil
+			}
+			argv = append([]string{"-e", src}, c.Args...)
+			want = runInProcess(src, c.Args)
+		}
 	}
 	if want.timeout {
 		o.Excluded = "script does not finish within 2 s in-process"
@@ -243,7 +323,7 @@ func oracle(c Case, o *h.Obs) *h.Fail {
 		o.Excluded = "in-process run panicked (C01's subject)"
 		return nil
 	}
-	if c.Mode != "missing" && want.err != nil {
+	if wantCode != 2 && want.err != nil {
 		wantCode = 4
 	}
 
@@ -270,7 +350,7 @@ func oracle(c Case, o *h.Obs) *h.Fail {
 	lines := strings.Count(want.out, "\n")
 	o.NonTrivial = lines >= 2 && (want.err != nil || len(c.Args) > 0 || strings.Contains(c.Src, "import("))
 	o.Class(fmt.Sprintf("exit_%d", wantCode))
-	detail := fmt.Sprintf("argv: %q\nexit status %d (want %d)\nstdout: %q\nlibrary error: %v\nlibrary output: %q\nsource:\n%s", argv, code, wantCode, got, want.err, want.out, c.Src)
+	detail := fmt.Sprintf("argv: %q\nexit status %d (want %d)\nstdout: %q\nlibrary error: %v\nlibrary output: %q\nsource:\n%s", argv, code, wantCode, got, want.err, want.out, src)
 	if code != wantCode {
 		return h.Failf(fmt.Sprintf("C18|exit-status|%s|want%d|got%d", c.Mode, wantCode, code), "%s", detail)
 	}
